@@ -26,21 +26,22 @@ Inductive plan :=
 
 (* program counter of one scope_reference (= one try_record_start .. record_completion) *)
 Inductive spc :=
-| SLoad                 (* try_record_start: about to opState_.load(relaxed)   v2:167 v0:220 *)
-| SCas (o : Z)          (* about to compare_exchange_weak(o, o+2, relaxed)      v2:175 v0:228 *)
-| SRejected             (* scope_ = nullptr; start of the nest op will set_done  v2:240 *)
-| SAdmitted             (* holds a reference; about to start the nested op       v2:238 *)
+| SLoad                 (* try_record_start: about to opState_.load(relaxed)   v2:182 v0:209 *)
+| SCas (o : Z)          (* about to compare_exchange_weak(o, o+2, relaxed)      v2:190 v0:217 *)
+| SRejected             (* scope_ = nullptr; start of the nest op will set_done  v2:250 *)
+| SAdmitted             (* holds a reference; about to start the nested op       v2:248 *)
 | SRunning              (* nested op started; it completes later (nest_receiver::complete) *)
-| SSub                  (* about to record_completion: fetch_sub(2)               v2:158 v0:233 *)
-| SSet                  (* read closed and count = 1: about to evt_.set()         v2:162 v0:237 *)
+| SSub                  (* about to record_completion: fetch_sub(2)               v2:173 v0:224 *)
+| SSet                  (* read closed and count = 1: about to evt_.set()         v2:177 v0:228 *)
 | SFin (adm : bool).    (* done; adm = it had been admitted (ghost) *)
 
 (* instructions of a closing / joining thread *)
 Inductive jop :=
-| JClose    (* end_scope / end_of_scope: fetch_and(~1), then evt_.set() iff it read count = 0 *)
+| JClose    (* end_scope v2:162-168 / end_of_scope v0:234-240: fetch_and(~1), then evt_.set() iff
+               it read open and count = 0 (before the fix: iff it read count = 0) *)
 | JStop     (* stopSource_.request_stop()            (v1, v0 request_stop / cleanup) *)
 | JWait     (* start evt_.async_wait(): complete at once if set, else push on the event's stack *)
-| JSync     (* v0 await_and_sync: opState_.load(acquire) after the wait *)
+| JSync     (* v0 await_and_sync: opState_.load(acquire) after the wait   v0:116 *)
 | JDone.    (* the join receiver is completed *)
 
 Inductive jmode :=
@@ -55,9 +56,9 @@ Record jst := {
 }.
 
 Record st := {
-  strict : bool;            (* variant of end_scope: true = set the event only if this call closed
-                               the scope (it read open and count = 0); false = the code as it is:
-                               set whenever it read count = 0 *)
+  strict : bool;            (* variant of end_scope: true = the code: set the event only if this
+                               call closed the scope (it read open and count = 0); false = the
+                               code before the fix: set whenever it read count = 0 *)
   w : Z;                    (* opState_ *)
   evt : bool;               (* event signalled *)
   waiters : list nat;       (* joiners parked on the event, most recent first *)
